@@ -28,6 +28,18 @@ NSH = 16
 SORT_OPS = ("sort", "sort_model", "cmp_kids")
 
 
+def build_runner():
+    """ocaml/build_tree.sh is shared with the other tree properties; somebody else's half-finished edit of the extraction list or
+    the driver breaks it for a few minutes: try again before calling the obligation broken"""
+    import time
+    for attempt in range(4):
+        rc, bout, _ = lib.run([os.path.join(VERIF, "ocaml", "build_tree.sh")], timeout=1800)
+        if rc == 0:
+            break
+        time.sleep(45)
+    return rc, bout
+
+
 def split_scripts(text):
     parts = re.split(r"(?m)^(?=SCRIPT )", text)
     return [p for p in parts if p.strip()]
@@ -155,7 +167,7 @@ def run(tier, seed):
     ctx.log("coq done (%.0fs)" % dt)
 
     avh = lib.harness_build(ctx)
-    rc, bout, _ = lib.run([os.path.join(VERIF, "ocaml", "build_tree.sh")], timeout=1800)
+    rc, bout = build_runner()
     ctx.oblige("build:tree-model-runner(extraction of Tree/*.v incl. Sort.v, ocaml)", rc == 0, bout[-1200:] if rc else "")
     prop_fail = []      # concrete failing inputs: (kind, record)
     if avh and rc == 0 and os.path.exists(os.path.join(DUMP, "spec_tables.txt")):
@@ -259,7 +271,7 @@ def replay(path):
     ctx = Ctx("C14", "quick", 1)
     os.makedirs(CW, exist_ok=True)
     avh = lib.harness_build(ctx)
-    rc, bout, _ = lib.run([os.path.join(VERIF, "ocaml", "build_tree.sh")], timeout=1800)
+    rc, bout = build_runner()
     if not avh or rc != 0:
         print("build failed")
         return 2
